@@ -36,8 +36,14 @@ T4 == [segs |-> << Seg("nc",   <<Entry(1, 0, 13), Entry(3, 31, 0)>>),
                    Seg("core", <<Entry(6, 0, 62), Entry(2, 26, 21), Entry(1, 12, 0)>>),
                    Seg("core", <<Entry(2, 0, 21), Entry(1, 12, 0)>>) >>,
        pairs |-> << <<3, 7>>, <<7, 3>>, <<3, 2>>, <<1, 6>> >>]
-Topo == <<T1, T2, T3, T4>>
-NTopos == 4
+\* T5: core 1 -> 2 -> 4, 1 -> 3 -> 5, 1 -> 6 -> 7; AS 2 has TWO peering links: 2#28 - 6#62 (listed first)
+\*     and 2#29 - 3#39 (listed second); the pairs cross the first, the second, and none
+T5 == [segs |-> << Seg("nc", <<Entry(1, 0, 12), EntryP(2, 21, 24, <<Peer(6, 62, 28), Peer(3, 39, 29)>>), Entry(4, 42, 0)>>),
+                   Seg("nc", <<Entry(1, 0, 13), EntryP(3, 31, 35, <<Peer(2, 29, 39)>>), Entry(5, 53, 0)>>),
+                   Seg("nc", <<Entry(1, 0, 16), EntryP(6, 61, 67, <<Peer(2, 28, 62)>>), Entry(7, 76, 0)>>) >>,
+       pairs |-> << <<4, 5>>, <<5, 4>>, <<4, 7>>, <<7, 4>>, <<5, 7>> >>]
+Topo == <<T1, T2, T3, T4, T5>>
+NTopos == 5
 TopoAses == {1, 2, 3, 4, 5, 6, 7}
 
 (***************************************************************************)
@@ -58,7 +64,8 @@ Island(v) ==
     [] v = 5 -> [kind |-> "core", good |-> FALSE, es |-> <<>>]
 
 OpNames == {"DeleteEntry", "DupEntry", "SwapEntries", "ZeroIf", "ZeroAll", "AliasIf", "CrossWirePeer",
-            "Oversize", "SingleAs", "Empty", "OutOfRangeMtu", "DupSegment", "FlipKind", "AddIsland", "ZeroPeer"}
+            "Oversize", "SingleAs", "Empty", "OutOfRangeMtu", "DupSegment", "FlipKind", "AddIsland", "ZeroPeer",
+            "FrontBrokenPeer"}
 
 Mutations(sp, ops) ==
   LET K == 1..Len(sp)
@@ -73,6 +80,7 @@ Mutations(sp, ops) ==
        \cup {M("AliasIf", k, i, i2) : i \in 1..N(k), i2 \in 1..N(k)}
        \cup {M("CrossWirePeer", k, i, a) : i \in 1..N(k), a \in {2, 5}}
        \cup {M("ZeroPeer", k, i, w) : i \in 1..N(k), w \in 1..3}
+       \cup {M("FrontBrokenPeer", k, i, w) : i \in 1..N(k), w \in 1..3}
        \cup {M("Oversize", k, 0, L) : L \in {63, 64, 70}}
        \cup {M("SingleAs", k, i, 0) : i \in 1..N(k)}
        \cup {M("Empty", k, 0, 0)}
@@ -88,6 +96,7 @@ Enabled1(m, sp) ==
   /\ (m.op \in {"ZeroAll", "Empty", "Oversize", "FlipKind"} => Len(sp[m.k].es) > 0)
   /\ (m.op = "CrossWirePeer" => sp[m.k].es[m.i].as # m.j)
   /\ (m.op = "ZeroPeer" /\ m.j = 3 => sp[m.k].es[m.i].peers # <<>>)
+  /\ (m.op = "FrontBrokenPeer" => sp[m.k].es[m.i].peers # <<>>)
   /\ (m.op = "DupSegment" => Len(sp) < 8)
   /\ (m.op = "AddIsland" => Len(sp) < 8)
 
@@ -125,6 +134,14 @@ ApplyM(m, sp) ==
             Set([es EXCEPT ![m.i] = [@ EXCEPT !.peers =
                    IF @ = <<>> THEN <<Peer(5, IF m.j = 2 THEN 0 ELSE 77, IF m.j = 1 THEN 0 ELSE 78)>>
                    ELSE [@ EXCEPT ![1] = [@ EXCEPT !.lif = IF m.j = 1 THEN 0 ELSE @, !.pif = IF m.j = 2 THEN 0 ELSE @]]]])
+       \* a broken peer entry is listed IN FRONT of the valid ones (the positions of the valid entries shift):
+       \* j = 1 no local interface, j = 2 no remote interface, j = 3 a copy of the LAST valid entry without
+       \* remote interface
+       [] m.op = "FrontBrokenPeer" ->
+            Set([es EXCEPT ![m.i] = [@ EXCEPT !.peers =
+                   <<CASE m.j = 1 -> Peer(7, 77, 0)
+                       [] m.j = 2 -> Peer(7, 0, 78)
+                       [] OTHER   -> [@[Len(@)] EXCEPT !.pif = 0]>> \o @]])
        [] m.op = "Oversize"    -> Set(Pad(es, m.j))
        [] m.op = "SingleAs"    -> Set(<<es[m.i]>>)
        [] m.op = "Empty"       -> Set(<<>>)
